@@ -22,7 +22,7 @@ EXTENDS Scan, Json, IOUtils, TLC
 
 FormatsJson == JsonDeserialize(IOEnv.FORMATS)
 NF   == Len(FormatsJson)
-FMTS == [i \in 1..NF |-> BuildFormat(FormatsJson[i].calls)]
+FMTS == [i \in 1..NF |-> PackedView(BuildFormat(FormatsJson[i].calls))]
 
 RECURSIVE HasTag(_, _, _)
 HasTag(tags, t, i) == IF i > Len(tags) THEN FALSE ELSE IF tags[i] = t THEN TRUE ELSE HasTag(tags, t, i + 1)
